@@ -710,3 +710,104 @@ Definition uop_fun (o : uop) (v : Z) : Z :=
   | URsub k => k - v
   end.
 Definition check_op (x : pd) (o : uop) (got : res) : bool := eqb_res (RArr (map_data (uop_fun o) x)) got.
+
+(* ================================================================== added by the harness coverage audit (definitions only;
+   nothing above is changed) *)
+
+(* PipelineData.__new__: defaults for channel / metadata and the two length checks.  empty_md is the identifier of {} *)
+Definition empty_md : Z := -2.
+Definition pd_new (sh : list Z) (d : nest) (s0 fsn fsd : Z) (ch md : option lab) : res :=
+  let nd := zlen sh in
+  let dim (k : Z) := nth (Z.to_nat (nd - k)) sh 0 in
+  let chk : err + lab :=
+      if nd >? 1 then
+        match ch with
+        | None => inr (LMany (repeat none_id (Z.to_nat (dim 2))))
+        | Some (LMany l) => if zlen l =? dim 2 then inr (LMany l) else inl EValue
+        | Some (LOne _) => inl ETypeKey                      (* len(scalar) *)
+        end
+      else inr (match ch with None => LOne none_id | Some c => c end) in
+  match chk with
+  | inl e => RErr e
+  | inr ch' =>
+    let mdk : err + lab :=
+        if nd >? 2 then
+          match md with
+          | None => inr (LMany (repeat empty_md (Z.to_nat (dim 3))))
+          | Some (LMany l) => if zlen l =? dim 3 then inr (LMany l) else inl EValue
+          | Some (LOne _) => inl EValue
+          end
+        else inr (match md with None => LOne empty_md | Some m => m end) in
+    match mdk with
+    | inl e => RErr e
+    | inr md' => RArr {| shape := sh; dat := d; s0 := s0; fsn := fsn; fsd := fsd; chan := ch'; meta := md' |}
+    end
+  end.
+Definition check_new (sh vals : list Z) (s0 fsn fsd : Z) (ch md : option lab) (ixs : list index) (got : res) : bool :=
+  match renest sh vals with
+  | NPArr _ d => match pd_new sh d s0 fsn fsd ch md with
+                 | RArr p => eqb_res (getitems true p ixs) got
+                 | r => eqb_res r got
+                 end
+  | _ => false
+  end.
+
+(* an operation, then index expressions on its result (bool / integer dtypes, results of arithmetic) *)
+Definition check_op_getitems (x : pd) (o : uop) (ixs : list index) (got : res) : bool :=
+  eqb_res (getitems true (map_data (uop_fun o) x) ixs) got.
+
+(* pipeline.concat as called: axis name check first, then plain ndarrays / mixed / annotated pieces *)
+Inductive piece := PPlain (sh : list Z) (d : nest) | PAnn (p : pd).
+Inductive cres := CPlain (sh : list Z) (d : nest) | CAnn (p : pd) | CErr (e : err).
+Definition is_plain (p : piece) : bool := match p with PPlain _ _ => true | PAnn _ => false end.
+Fixpoint cat_plain (dm : cdim) (sh : list Z) (d : nest) (ps : list piece) : option (list Z * nest) :=
+  match ps with
+  | [] => Some (sh, d)
+  | PPlain sh2 d2 :: t => match cat_shape dm sh sh2, cat2 dm d d2 with
+                          | Some sh', Some d' => cat_plain dm sh' d' t
+                          | _, _ => None
+                          end
+  | PAnn _ :: _ => None
+  end.
+Definition concat_any (dm : option cdim) (ps : list piece) : cres :=
+  match dm with
+  | None => CErr EValue                                     (* dim_axis: 'Axis not supported' *)
+  | Some dm =>
+    if forallb is_plain ps then
+      match ps with
+      | PPlain sh d :: rest =>
+        (* np.concatenate; a single piece must still have the axis *)
+        match cat_shape dm sh sh with
+        | None => CErr EValue
+        | Some _ => match cat_plain dm sh d rest with Some (sh', d') => CPlain sh' d' | None => CErr EValue end
+        end
+      | _ => CErr EValue                                    (* need at least one array to concatenate *)
+      end
+    else if existsb is_plain ps then CErr EValue            (* 'Cannot concatenate pipeline and non-pipeline data' *)
+    else match concat_pd dm (flat_map (fun p => match p with PAnn x => [x] | _ => [] end) ps) with
+         | RArr r => CAnn r
+         | RErr e => CErr e
+         | RScalar _ => CErr ETypeKey
+         end
+  end.
+Definition mk_piece (plain : bool) (sh vals : list Z) (s0 fsn fsd : Z) (ch md : lab) : piece :=
+  match renest sh vals with
+  | NPArr _ d => if plain then PPlain sh d
+                 else PAnn {| shape := sh; dat := d; s0 := s0; fsn := fsn; fsd := fsd; chan := ch; meta := md |}
+  | _ => PPlain sh (N1 vals)
+  end.
+Definition eqb_cres (a b : cres) : bool :=
+  match a, b with
+  | CPlain s d, CPlain s' d' => eqb_listZ s s' && eqb_listZ (flat d) (flat d')
+  | CAnn p, CAnn q => eqb_pd p q
+  | CErr e, CErr f => eqb_err e f
+  | _, _ => false
+  end.
+Definition cres_of (plain : bool) (r : res) : cres :=
+  match r with
+  | RArr p => if plain then CPlain (shape p) (dat p) else CAnn p
+  | RErr e => CErr e
+  | RScalar _ => CErr ETypeKey
+  end.
+Definition check_concat_any (dm : option cdim) (ps : list piece) (got_plain : bool) (got : res) : bool :=
+  eqb_cres (concat_any dm ps) (cres_of got_plain got).
